@@ -276,7 +276,7 @@ add("g1_chunkreader_step", "yaml::chunker",
 add("g2_chunkreader_read", "yaml::chunker",
     desc="ChunkReader::read: exactly the bytes the inner reader reports (any short read) are captured and they equal the bytes handed to the parser; an error captures nothing",
     bounds="buffer 0..4, reported length any 0..=size, reader error", functions=["yaml::chunker::ChunkReader::read"],
-    covers=["G2 three bytes captured", "G2 reader error"], props=["C03", "C04", "C12", "C17"], timeout=300, mem_gb=8)
+    covers=["G2 three bytes captured", "G2 reader error"], props=["C03", "C04", "C12", "C17", "C07", "C02"], timeout=300, mem_gb=8)
 add("g2_chunkreader_overclaim_panics", "yaml::chunker",
     desc="a reader that claims more bytes than the buffer holds ends in a clean panic (kani::should_panic: a panic and no memory-safety failure)",
     bounds="buffer 0..4, claim any usize > size", functions=["yaml::chunker::ChunkReader::read"], props=["C17"], timeout=300, mem_gb=8, replay="overclaim")
